@@ -172,7 +172,7 @@ func c19Installer(c *h.Ctx, id string, r *rand.Rand) {
 	nSteps := 12 + r.Intn(14)
 	for step := 0; step < nSteps; step++ {
 		what := ""
-		switch k := r.Intn(10); {
+		switch k := r.Intn(11); {
 		case k < 4:
 			what = "exchange round"
 			if !s.round(r, [2]int{-1, -1}) {
@@ -217,6 +217,29 @@ func c19Installer(c *h.Ctx, id string, r *rand.Rand) {
 			what = fmt.Sprintf("link %d-%d added", a, b)
 			s.setLink(a, b, true)
 			c.Distinct("installer|link-added")
+		case k < 10 && r.Intn(2) == 0:
+			// a link is re-created on a new face while the neighbour's advertisement is unchanged:
+			// the next sync Interest arrives on the new face
+			var es [][2]int
+			for e := range s.adj {
+				es = append(es, e)
+			}
+			if len(es) == 0 {
+				continue
+			}
+			sort.Slice(es, func(i, j int) bool { return es[i][0]*10+es[i][1] < es[j][0]*10+es[j][1] })
+			e := es[r.Intn(len(es))]
+			if r.Intn(2) == 0 {
+				e = [2]int{e[1], e[0]}
+			}
+			what = fmt.Sprintf("face of r%d towards r%d re-created", e[0], e[1])
+			s.newFace(e[0], e[1])
+			if !s.exchange(e[0], e[1]) {
+				c.Inconclusive(s.bad)
+				return
+			}
+			c.Count("face_changes", 1)
+			c.Distinct("installer|face-re-created")
 		default:
 			// single exchange (partial round)
 			var es [][2]int
